@@ -88,8 +88,10 @@ func c12Deep(rep *vk.Report, base int) {
 // c12RandomTrees: random error trees (wrap, join, multi-%w to depth 4 over the leaf universe) x random condition lists,
 // observed through a fallback and a breaker; expected value from the statement's rule.
 func c12RandomTrees(rep *vk.Report, base, n int) {
-	leaves := []error{errE1, errE2, errE3, valErr{4}, &ptrErr{4}, isE1{}}
-	kinds := []string{"E", "EE", "Tv", "Tvp", "Tp", "Tpv", "TT", "R", "I"}
+	// sliceErr and uncmpErr values are not comparable: errors.Is never compares them with == (only an Is method can make
+	// them match), and a classifier that does panics
+	leaves := []error{errE1, errE2, errE3, valErr{4}, &ptrErr{4}, isE1{}, sliceErr{"a"}, uncmpErr{tags: []string{"x"}}, uncmpIsE2{tags: []string{"y"}}}
+	kinds := []string{"E", "EE", "Tv", "Tvp", "Tp", "Tpv", "TT", "R", "I", "Eu", "Eus", "Eu"}
 	vk.Parallel(n, 16, func(i int) {
 		idx := base + i
 		if rep.Skip(idx) {
@@ -127,14 +129,31 @@ func c12RandomTrees(rep *vk.Report, base, n int) {
 		applyHandle[fallback.FallbackBuilder[int]](fbb, cs)
 		applied := false
 		fbb.OnFallbackExecuted(func(failsafe.ExecutionDoneEvent[int]) { applied = true })
-		failsafe.Get(func() (int, error) { return res, err }, fbb.Build())
 		cbb := circuitbreaker.Builder[int]().WithFailureThreshold(100)
 		applyHandle[circuitbreaker.CircuitBreakerBuilder[int]](cbb, cs)
 		cb := cbb.Build()
-		failsafe.Get(func() (int, error) { return res, err }, cb)
+		if p := func() (p any) {
+			defer func() { p = recover() }()
+			failsafe.Get(func() (int, error) { return res, err }, fbb.Build())
+			failsafe.Get(func() (int, error) { return res, err }, cb)
+			return nil
+		}(); p != nil {
+			rep.Eval()
+			rep.Violate(idx, "C12/classification-panicked", fmt.Sprintf("conditions %v, outcome (%d, %s): classifying the outcome panicked: %v", []string(cs), res, shape, p), map[string]any{"conditions": cs, "error_shape": shape, "result": res})
+			return
+		}
 		rep.Eval()
 		if applied != want || (cb.Metrics().Failures() == 1) != want {
 			rep.Violate(idx, "C12/random-tree-mismatch", fmt.Sprintf("conditions %v, outcome (%d, %s): fallback applied=%v breaker failure=%v, rule says %v", []string(cs), res, shape, applied, cb.Metrics().Failures() == 1, want), map[string]any{"conditions": cs, "error_shape": shape, "result": res})
+			return
+		}
+		// the same condition list as retry abort conditions
+		if p := func() (p any) {
+			defer func() { p = recover() }()
+			c12Abort(rep, idx, cs, outcome{Res: res, Err: err, Name: shape})
+			return nil
+		}(); p != nil {
+			rep.Violate(idx, "C12/classification-panicked", fmt.Sprintf("abort conditions %v, outcome (%d, %s): classifying the outcome panicked: %v", []string(cs), res, shape, p), map[string]any{"conditions": cs, "error_shape": shape, "result": res})
 			return
 		}
 		if i%7 == 0 {
